@@ -52,7 +52,8 @@ def prelude_statements(pkg):
     """The statements of Graph.optimize before its main loop.  They are interpreted with the scenario's graph to establish the
     fixed set exactly as the code does; statements that cannot be interpreted (timing, printing) are skipped unless the fixed-set
     statements depend on them (backward slice on names)."""
-    fn = pkg.method("Graph", "optimize")
+    from .inline import inline_helpers
+    fn, _ = inline_helpers(pkg, pkg.method("Graph", "optimize"), keep=("_calc_chi2_gradient_hessian", "calc_chi2", "_initialize"))
     pre = []
     for st in fn.body:
         if isinstance(st, (ast.For, ast.While)) and any(isinstance(x, ast.Call) and "_calc_chi2_gradient_hessian" in ast.unparse(x.func) for x in ast.walk(st)):
